@@ -525,6 +525,7 @@ def main(argv=None):
     if budget is None:
         b = os.environ.get('VERIF_BUDGET_S')
         budget = float(b) if b else (QUICK_S if a.tier == 'quick' else THOROUGH_S)
+    os.environ['VERIF_TIER'] = a.tier       # read by Decisions.scale(): the thorough tier widens the size decisions in half of its runs
     try:
         return run_check(pid, a.tier, seed, a.procs, budget, a.runs)
     except Exception:
